@@ -12,7 +12,8 @@
 
    Abstracted: token payloads (identifier spelling, keyword id, operator id, literal value, f-string parts)
    are not modelled, only the token class and span; an integer literal's value is modelled just far enough
-   to decide `parse::<i64>()` failure; `parse::<f64>()` failure is modelled as "exponent without digits". *)
+   to decide `parse::<i64>()` failure; `parse::<f64>()` failure is modelled as "exponent without digits"; a float literal is also rejected when its decimal
+   value rounds to infinity (>= 2^1024 - 2^970), computed exactly from the literal's digits. *)
 From Coq Require Import List Arith Lia Bool NArith ZArith.
 From Verif Require Import Lex.Layout.
 Import ListNotations.
@@ -196,6 +197,37 @@ Fixpoint num_loop (ph : nphase) (r : list ch) (n : nat) (isf expd : bool) (val :
 
 Definition I64_MAX : N := 9223372036854775807.
 
+(* numbers.rs: `value.parse::<f64>()` is correctly rounded (ties to even), so the result is infinite exactly when the
+   decimal value is >= f64::MAX + half an ulp = 2^1024 - 2^970; such a literal is rejected ("Invalid float literal").
+   [float_parts] reads the literal's text: mantissa digits (value, count), fraction digits, exponent (sign, value). *)
+Definition F64_INF_THRESHOLD : N := 2 ^ 1024 - 2 ^ 970.
+
+Fixpoint float_parts (l : list ch) (ph : nat) (m : N) (dig frac : nat) (eneg : bool) (e : N) : N * nat * nat * bool * N :=
+  match l with
+  | [] => (m, dig, frac, eneg, e)
+  | c :: r =>
+      if is_digit c then
+        match ph with
+        | O => float_parts r 0 (10 * m + (c - 48)) (S dig) frac eneg e
+        | S O => float_parts r 1 (10 * m + (c - 48)) (S dig) (S frac) eneg e
+        | _ => float_parts r 2 m dig frac eneg (10 * e + (c - 48))
+        end
+      else if c =? 46 then float_parts r 1 m dig frac eneg e
+      else if is_e c then float_parts r 2 m dig frac eneg e
+      else if c =? 45 then float_parts r ph m dig frac true e
+      else float_parts r ph m dig frac eneg e
+  end.
+
+Definition float_overflows (lit : list ch) : bool :=
+  let '(m, dig, frac, eneg, e) := float_parts lit 0 0 0 0 false 0 in
+  if m =? 0 then false
+  else
+    let k : Z := ((if eneg then - Z.of_N e else Z.of_N e) - Z.of_nat frac)%Z in
+    if (400 <? k)%Z then true
+    else if (0 <=? k)%Z then F64_INF_THRESHOLD <=? m * 10 ^ Z.to_N k
+    else if (Z.of_nat dig <=? - k)%Z then false
+    else F64_INF_THRESHOLD * 10 ^ Z.to_N (- k) <=? m.
+
 Fixpoint ident_loop (r : list ch) (n : nat) : nat :=
   match r with
   | c :: r1 => if is_ident_continue c then ident_loop r1 (n + 1)%nat else n
@@ -247,7 +279,8 @@ Definition scan_item (c : ch) (r : list ch) : ikind * nat * serrs :=
         end
       else if is_digit c then
         let '(n, isf, expd, val) := num_loop PInt r 0 false false (c - 48) in
-        if isf then (if expd || negb (existsb is_e (firstn n r)) then (IFloat, n, []) else (INone, n, [(E_FLOAT, n)]))
+        if isf then (if (expd || negb (existsb is_e (firstn n r))) && negb (float_overflows (c :: firstn n r))
+                     then (IFloat, n, []) else (INone, n, [(E_FLOAT, n)]))
         else (if val <=? I64_MAX then (IInt, n, []) else (INone, n, [(E_INT, n)]))
       else if is_ident_start c then (IWord, ident_loop r 0, [])
       else (INone, 0%nat, [(E_UNEXPECTED, 0%nat)])
